@@ -719,6 +719,8 @@ class PybindWrapper:
 
         # Reset the serializing classes list
         self._serializing_classes = []
+        # Reset the overload memory of the docstring extractor
+        self.xml_parser = XMLDocParser()
 
         submodules_init = []
 
